@@ -6,6 +6,7 @@ import random
 
 import p_recv
 import p_rsync
+from vlib import clip as vclip
 from vlib import unreproduced as vlib_unreproduced, Broken, read_ndjson, write_ndjson
 
 
@@ -30,7 +31,7 @@ def normalise(o):
          "flags": scn.get("flags", []), "judge": scn.get("judge", []), "src": scn.get("src", []), "dst": scn.get("dst", []), "final": [], "extra": [],
          "result": "crashed" if o.get("crashed") else "hung", "result2": "", "final2": [], "changed2": False, "resent2": [],
          "opts": e.get("opts", {}), "rules": e.get("rules", []), "wild": bool(e.get("wild")), "ioerr": 1 if e.get("missing") else 0, "missing": e.get("missing") or "",
-         "err": ("CRASHED: " if o.get("crashed") else "HUNG: " if o.get("hung") else "HARNESS: " + str(o.get("harness_error"))) + (o.get("stderr") or "")[-1500:]}
+         "err": ("CRASHED: " if o.get("crashed") else "HUNG: " if o.get("hung") else "HARNESS: " + str(o.get("harness_error"))) + vclip(o.get("stderr"), 1500)}
     return n
 
 
